@@ -186,7 +186,7 @@ ConnDown(s) ==
 Refused(l) == l \notin known /\ (SelfLoop(l) \/ \E e \in EndsOf(l) : LinkAt(e[1], e[2], known) # {})
 LinkEv(add, l, dir) ==
   /\ tphase < P
-  /\ UNCHANGED <<evars, sws, tphase>>
+  /\ UNCHANGED <<conn, sports, down, swcfg, sws, tphase>>
   /\ calm' = 0
   /\ LET args == [add |-> add, l |-> l, dir |-> dir] IN
      IF Refused(l)
